@@ -473,7 +473,6 @@ class QueryScheduler:
         # which defaults to 10s
 
         ready_types: Set[str] = set()
-        next_scheduled: Optional[_ScheduledPTRQuery] = None
         end_time_millis = now_millis + self._clock_resolution_millis
         schedule_rescue: List[_ScheduledPTRQuery] = []
 
@@ -483,7 +482,6 @@ class QueryScheduler:
                 heappop(self._query_heap)
                 continue
             if query.when_millis > end_time_millis:
-                next_scheduled = query
                 break
             query = heappop(self._query_heap)
             ready_types.add(query.name)
@@ -500,13 +498,12 @@ class QueryScheduler:
         if ready_types:
             self.async_send_ready_queries(False, now_millis, ready_types)
 
-        next_time_millis = now_millis + self._min_time_between_queries_millis
-
-        if next_scheduled is not None and next_scheduled.when_millis > next_time_millis:
-            next_when_millis = next_scheduled.when_millis
-        else:
-            next_when_millis = next_time_millis
-
+        # Always look again after the minimum time between queries. The wake up
+        # must not be derived from the query that is at the top of the heap now:
+        # a query scheduled later (a newly learned record with a shorter TTL, a
+        # rescue query) can be due earlier, and it would then be sent late or
+        # not at all before the record expires.
+        next_when_millis = now_millis + self._min_time_between_queries_millis
         self._next_run = self._loop.call_at(millis_to_seconds(next_when_millis), self._process_ready_types)
 
     def async_send_ready_queries(
